@@ -3,7 +3,9 @@
 import re, subprocess, sys, os, glob, concurrent.futures as cf
 def one(wt):
     res=[]
+    only=os.environ.get('ONLY','').split()
     for md in sorted(glob.glob(wt+'/out/m*')):
+        if only and os.path.basename(md) not in only: continue
         demos=glob.glob(md+'/demo.*')
         if not demos or not os.path.exists(md+'/patch.diff'):
             res.append((md,'incomplete')); continue
